@@ -45,6 +45,9 @@ type c01Scenario struct {
 	Order   []int     `json:"order,omitempty"`  // interleaving: track index per step
 	Finish  []int     `json:"finish,omitempty"` // handler completion order (request indices)
 	Resp    []int     `json:"resp,omitempty"`   // response shape index per request
+	// Burst: all request frames arrive in one segment (the read loop runs ahead of the stream
+	// loop), and all handlers return before the server runs again
+	Burst bool `json:"burst,omitempty"`
 }
 
 var c01Vocab = []struct {
@@ -236,6 +239,7 @@ func c01Run(sc c01Scenario) (*fw.Violation, *harness.Server) {
 			}
 		}
 	}
+	var burst []peer.Frame
 	for _, t := range order {
 		if pos[t] >= len(tracks[t]) {
 			continue
@@ -246,12 +250,19 @@ func c01Run(sc c01Scenario) (*fw.Violation, *harness.Server) {
 		}
 		// a header block is contiguous on the connection
 		for {
-			h.SendFrames(tracks[t][pos[t]].f()...)
+			if sc.Burst {
+				burst = append(burst, tracks[t][pos[t]].f()...)
+			} else {
+				h.SendFrames(tracks[t][pos[t]].f()...)
+			}
 			pos[t]++
 			if pos[t] >= len(tracks[t]) || !tracks[t][pos[t]].cont {
 				break
 			}
 		}
+	}
+	if sc.Burst {
+		h.SendFrames(burst...)
 	}
 	encShape := func(i int) string { return c01PlanShape(sc.Plans[i]) }
 	// every request dispatched exactly once, intact
@@ -281,6 +292,8 @@ func c01Run(sc c01Scenario) (*fw.Violation, *harness.Server) {
 		}
 	}
 	resps := make([]harness.Resp, len(wants))
+	var finIdx []int
+	var finResp []harness.Resp
 	for _, i := range fin {
 		r := c01Resps[1]
 		if i < len(sc.Resp) {
@@ -289,9 +302,16 @@ func c01Run(sc c01Scenario) (*fw.Violation, *harness.Server) {
 		resps[i] = r
 		for _, c := range h.Calls[preCalls:] {
 			if c.Stream == wants[i].ID {
-				h.Finish(c.Idx, r)
+				if sc.Burst {
+					finIdx, finResp = append(finIdx, c.Idx), append(finResp, r)
+				} else {
+					h.Finish(c.Idx, r)
+				}
 			}
 		}
+	}
+	if sc.Burst {
+		h.FinishMany(finIdx, finResp)
 	}
 	if len(h.GoAways) > 0 || h.C.Closed() {
 		return mk("connection-error", reactionClass(h.Reaction(from)), "well-formed traffic ended in "+h.Reaction(from)), h
@@ -438,7 +458,14 @@ func runC01(c *fw.Ctx) {
 	thorough := c.Tier == "thorough"
 	var item int64
 	sampled := 0
+	var doRef func(sc c01Scenario)
 	do := func(sc c01Scenario) {
+		if !sc.Burst && (len(sc.Plans) >= 2 || sc.Family == "encoding") {
+			// the same scenario with everything the peer sends in one segment
+			sb := sc
+			sb.Burst = true
+			defer doRef(sb)
+		}
 		if item++; !c.Mine(item) {
 			return
 		}
@@ -464,6 +491,7 @@ func runC01(c *fw.Ctx) {
 		}
 		h.Close()
 	}
+	doRef = do
 	// ---- family: encoding deviations of one request ----
 	for req := range c01Vocab {
 		base := basePlan(req)
